@@ -16,7 +16,7 @@ GROUP = {
         left + padding >= colsize ==> r == padding,               // @get_column.overlong_gets_padding
 """,
         }),
-        ("unit", {"name": "Alignment", "file": F, "path": [r"enum Alignment\b"]}),
+        ("unit", {"name": "Alignment", "file": F, "path": [r"enum Alignment\b"], "derive": "Clone, Copy"}),
         ("text", "columns_spec.rs"),
         ("unit", {
             "name": "Alignment::absolute", "file": F, "path": [r"impl Alignment\b", r"fn absolute\b"], "fn": "absolute",
